@@ -47,6 +47,9 @@ class It(BatchItemBase):
     pass
 
 
+from asynq.decorators import lazy as _lazy
+
+
 def make(kind, st):
     def prov_ok():
         st["runs"] += 1
@@ -58,9 +61,9 @@ def make(kind, st):
 
     # every other history builds the lazy future through the public decorator asynq.lazy(fn)(...) instead of Future(provider)
     if kind == "fut_ok":
-        return asynq.lazy(prov_ok)() if st.get("alt") else Future(prov_ok)
+        return _lazy(prov_ok)() if st.get("alt") else Future(prov_ok)
     if kind == "fut_raise":
-        return asynq.lazy(prov_raise)() if st.get("alt") else Future(prov_raise)
+        return _lazy(prov_raise)() if st.get("alt") else Future(prov_raise)
     if kind == "const":
         return ConstFuture(5)
     if kind == "error":
